@@ -236,8 +236,13 @@ func (p *parser) parseFloat(n *yaml.Node) *Float {
 	}
 
 	f, err := strconv.ParseFloat(n.Value, 64)
-	if err != nil || math.IsNaN(f) {
+	if err != nil {
 		p.errorf(n, "invalid float value: %q: %s", n.Value, err.Error())
+		return nil
+	}
+	if math.IsNaN(f) {
+		// strconv.ParseFloat does not return an error on parsing "nan"
+		p.errorf(n, "invalid float value: %q: the value is not a number", n.Value)
 		return nil
 	}
 
